@@ -3,6 +3,8 @@ package main
 import (
 	"context"
 	"fmt"
+	xkv "github.com/synnaxlabs/x/kv"
+	"sync"
 	"time"
 
 	"github.com/synnaxlabs/aspen/verifx"
@@ -85,8 +87,11 @@ func leaveCase(h *harness.H, c int) string {
 				fmt.Sprintf("%s joined with cluster key %v, the cluster's key is %v", cl.HostAddress, cl.Key(), ck), map[string]any{"log": log})
 		}
 	}
-	kv1 := memkv.New()
-	defer func() { _ = kv1.Close() }()
+	// cluster.Close does not wait for the state flushes it started (kv.Subscriber.Flush
+	// spawns untracked goroutines); a flush that lands after the store was closed would
+	// panic inside pebble. The guard turns writes after the end of the case into no-ops.
+	kv1 := &guardKV{DB: memkv.New()}
+	defer kv1.end()
 	cfg1 := newCfg()
 	cfg1.Storage, cfg1.StorageKey, cfg1.StorageFlushInterval = kv1, []byte("c11-leave-node-1"), -1*time.Second // flush on every change
 	c1, err := verifx.OpenCluster(ctx, cfg1)
@@ -161,4 +166,29 @@ func leaveCase(h *harness.H, c int) string {
 		h.Distinct(fmt.Sprintf("leave|%d|%d|%d", len(keys), left, len(log)))
 	}
 	return ""
+}
+
+type guardKV struct {
+	xkv.DB
+	mu   sync.Mutex
+	dead bool
+}
+
+func (g *guardKV) Set(ctx context.Context, key, value []byte, opts ...any) error {
+	g.mu.Lock()
+	defer g.mu.Unlock()
+	if g.dead {
+		return nil
+	}
+	return g.DB.Set(ctx, key, value, opts...)
+}
+
+// end closes the store; later writes of the (closed) cluster are dropped.
+func (g *guardKV) end() {
+	g.mu.Lock()
+	defer g.mu.Unlock()
+	if !g.dead {
+		g.dead = true
+		_ = g.DB.Close()
+	}
 }
